@@ -125,7 +125,11 @@ class igmp (packet_base):
       s += self.extra
 
       for _ in range(num):
-        off,gr = GroupRecord.unpack_new(self.extra)
+        try:
+          off,gr = GroupRecord.unpack_new(self.extra)
+        except TruncatedException:
+          self.msg('(igmp parse) warning: group record truncated')
+          return None
         self.extra = self.extra[off:]
         self.group_records.append(gr)
 
@@ -179,10 +183,14 @@ class GroupRecord (object):
 
   @classmethod
   def unpack_new (cls, raw, offset=0):
+    if len(raw) - offset < 8:
+      raise TruncatedException()
     t, auxlen, n, addr = struct.unpack_from("BBH4s", raw, offset)
     offset += 1+1+2+4
     addr = IPAddr(addr)
     auxlen *= 4
+    if len(raw) - offset < 4 * n + auxlen:
+      raise TruncatedException()
     addrs = []
     for _ in range(n):
       addrs.append( IPAddr(raw[offset:offset+4])  )
